@@ -127,6 +127,7 @@ class Interp(object):
     self.writes = []                          # (obj, field) log for loop frame checks
     self.ext = {}                             # harness extension points (float_of_str, ...)
     self.call_stack = []
+    self.label_prefix = ''
     from . import builtins as B
     B.install(self)
 
@@ -330,6 +331,10 @@ class Interp(object):
       else:
         if name in c.methods:
           return (RepoFunc(c.methods[name]), c)
+        alias = c.attrs.get(name)
+        if isinstance(alias, ast.Name) and alias.id in c.methods:
+          # class-level alias such as `__bool__ = __nonzero__`
+          return (RepoFunc(c.methods[alias.id]), c)
     return None
 
   def find_class_attr(self, ci, name):
@@ -558,6 +563,10 @@ class Interp(object):
     # ordering
     if isinstance(a, Inf) or isinstance(b, Inf) or isinstance(a, PosReal) or isinstance(b, PosReal):
       return order_ext(op, a, b)
+    if isinstance(a, Model) and hasattr(a, 'py_compare'):
+      return a.py_compare(self, op, b, False)
+    if isinstance(b, Model) and hasattr(b, 'py_compare'):
+      return b.py_compare(self, op, a, True)
     if isinstance(a, tuple) and isinstance(b, tuple):
       raise EngineError("tuple ordering")
     if is_num(a) and is_num(b) and not (is_z3(a) or is_z3(b)):
@@ -663,16 +672,18 @@ class Interp(object):
           q = x / y
           r = x % y
         else:
-          # y < 0: floor(x/y) = -ceil(x/(-y)) ; ceil(p/q) = -( (-p) div q ) for q>0
+          # y < 0: floor(x/y) = floor((-x)/(-y)); Euclidean div with a positive divisor is floor
           q = (-x) / (-y)
-          q = z3.If((-x) % (-y) == 0, q, q)   # floor(-x / -y): Euclid with positive divisor is floor
           r = x - q * y
         return q if t is ast.FloorDiv else r
-      # reals: floor division through ToInt (floor)
+      # reals: q = floor(x / y), introduced by its defining inequalities (kept linear in q for a
+      # constant divisor; for a symbolic divisor the products are the same terms the code builds)
+      qi = self.ctx.fresh(z3.IntSort(), 'floordiv')
+      q = z3.ToReal(qi)
       if self.ctx.branch(y > 0, 'divisor>0'):
-        q = z3.ToReal(z3.ToInt(x / y))
+        self.ctx.assume(z3.And(q * y <= x, x < q * y + y))
       else:
-        q = z3.ToReal(z3.ToInt(x / y))
+        self.ctx.assume(z3.And(q * y >= x, x > q * y + y))
       return q if t is ast.FloorDiv else x - q * y
     if t is ast.Pow and not is_z3(b):
       r = 1
@@ -1382,7 +1393,7 @@ class Interp(object):
           continue
       self.exec_block(st.orelse, fr)
       return
-    prefix = "%s/loop%d" % (fr.func.name, ordn)
+    prefix = "%s%s/loop%d" % (self.label_prefix, fr.func.name, ordn)
     r = self.run_cut_loop(st, fr, spec, ordn, prefix,
                           lambda: self.truth(self.eval(st.test, fr)))
     if r == 'exit':
@@ -1407,7 +1418,7 @@ class Interp(object):
     seq = self.as_symseq(it)
     fr.loop_k[ordn] = 0
     fr.ghost['seq%d' % ordn] = seq
-    prefix = "%s/loop%d" % (fr.func.name, ordn)
+    prefix = "%s%s/loop%d" % (self.label_prefix, fr.func.name, ordn)
 
     orig_havoc = spec.havoc
 
